@@ -150,11 +150,20 @@ func modelCase(rep *core.Report, prop string, c *CaseResult, governed map[string
 		rep.Count("not_accepted", 1)
 		return
 	}
+	badFuncs := map[string]bool{}
 	if len(c.TypeErrs) > 0 {
-		// an output that does not type-check is C01's finding; without type information conversions and
-		// calls cannot be told apart, so nothing else is judged on it
-		rep.Count("skipped_output_does_not_typecheck", 1)
-		return
+		// an output that does not type-check is C01's finding. Inside a function with a type error
+		// conversions and calls cannot be told apart reliably, so such functions are not judged here;
+		// errors that cannot be attributed to a generated function disqualify the whole output.
+		outBase := c.S.OutRel()[strings.LastIndex(c.S.OutRel(), "/")+1:]
+		for _, msg := range c.TypeErrs {
+			fn, _, _, _, _ := attribute(c, outLine(msg, outBase))
+			if fn == "" {
+				rep.Count("skipped_output_does_not_typecheck", 1)
+				return
+			}
+			badFuncs[fn] = true
+		}
 	}
 	models, _, err := BuildModels(c)
 	if err != nil {
@@ -165,6 +174,10 @@ func modelCase(rep *core.Report, prop string, c *CaseResult, governed map[string
 	for key, fi := range infos {
 		exps := models[key]
 		if exps == nil {
+			continue
+		}
+		if badFuncs[key] {
+			rep.Count("skipped_function_with_type_error", 1)
 			continue
 		}
 		rep.Count("functions_compared", 1)
